@@ -3,7 +3,7 @@
    any schedule = list of session ids).  Property theorems only. *)
 From Coq Require Import ZArith List Bool.
 Import ListNotations.
-Require Import PonyV.Model.C20Opt PonyV.Model.C20Life PonyV.Proofs.C20OptProofs PonyV.Proofs.C20Serial PonyV.Proofs.C20LifeProofs.
+Require Import PonyV.Model.C20Opt PonyV.Model.C20Life PonyV.Proofs.C20OptProofs PonyV.Proofs.C20Serial PonyV.Proofs.C20LifeProofs PonyV.Model.C20Multi PonyV.Proofs.C20MultiProofs PonyV.Model.C20Decisions PonyV.Proofs.C20DecisionsProofs.
 
 (* The WHERE clause of the UPDATE (Entity._construct_optimistic_criteria_): `col = value read` (IS NULL for None)
    for exactly the attributes with a read bit whose optimistic option (own, else the converter's) is on. *)
@@ -97,6 +97,38 @@ Theorem C20_flush_applies : forall k sch s, lcreated s = false -> set_list k (lx
 Proof. exact flush_applies. Qed.
 Print Assumptions C20_flush_applies.
 
+(* ---- one session, SEVERAL objects (model Multi): one UPDATE per modified object in objects_to_save order, auto-flush in
+   front of a load, other sessions' commits whenever the write lock is free. ---- *)
+
+(* All-or-nothing across objects, for every state and every step: a step that ends the session in an error (one object's
+   optimistic check failed, possibly after UPDATEs of other objects were already executed in the transaction) leaves every
+   committed row untouched and no transaction open; committed rows change only by another session's commit while the lock is
+   free, or by this session's successful commit. *)
+Theorem C20_all_or_nothing : forall k sch s e,
+  let s' := mstep k sch s e in
+  (mfail s = None -> mfail s' <> None -> mdb s' = mdb s /\ mtxn s' = None)
+  /\ (mdb s' <> mdb s -> (exists o a v, e = MExt o a v /\ mtxn s = None)
+                          \/ (e = MCommit /\ mfail s = None /\ mfail s' = None /\ mtxn s' = None)).
+Proof. exact all_or_nothing. Qed.
+Print Assumptions C20_all_or_nothing.
+
+(* In every reachable state: if the flush succeeds, EVERY modified object passed its own optimistic check against the view
+   the flush started from and received exactly its writes; objects that were not modified are untouched. *)
+Theorem C20_multi_object_checked : forall k sch d evs,
+  let s := mrunm k sch (minit0 d) evs in
+  mfail s = None -> mfail (m_flush k sch s) = None ->
+  (forall o, In o (mord s) -> matches (mview s o) (criteria k sch (mx s o)) = true
+                              /\ mview (m_flush k sch s) o = apply_sets (mview s o) (set_list k (mx s o)))
+  /\ (forall o, ~ In o (mord s) -> mview (m_flush k sch s) o = mview s o).
+Proof. exact flush_checked. Qed.
+Print Assumptions C20_multi_object_checked.
+
+(* The error raised when an UPDATE with optimistic criteria finds no row: OptimisticCheckError inside every db_session
+   (exact complement of the recorded finding: outside a db_session it is an AttributeError). *)
+Theorem C20_rowcount0_except_known : forall ds, ds <> None -> rowcount0_outcome ds = rowcount0_spec ds.
+Proof. exact rowcount0_except_known. Qed.
+Print Assumptions C20_rowcount0_except_known.
+
 (* Non-vacuity: the classic lost update.  Two sessions run `obj.a = obj.a + 1; commit` on a = 10, interleaved
    read / read / write+commit / write+commit: the first commits (a = 11), the second ends in OptimisticCheckError. *)
 Definition sch2 : list attr := [ {| a_decl := None; a_conv := true; a_vol := false |} ].
@@ -122,4 +154,14 @@ Proof. vm_compute. reflexivity. Qed.
 Example C20_life_nonvacuous_locked :
   loutcome 1 sch2 (Some [Some 10%Z]) [LForUpd; LRead 0; LExt 0 (Some 70%Z); LWrite 0 (EPlus 0 (-5)); LCommit]
   = (Some [Some 5%Z], false, [LObs 0 (Some 10%Z); LObs 0 (Some 10%Z); LUpdate [(0%nat, Some 5%Z)] [] true]).
+Proof. vm_compute. reflexivity. Qed.
+
+(* Multi: object 0 is updated by the auto-flush in front of the load of object 1 (lock held), object 1's check then fails at the
+   commit because another session had changed it before: the UPDATE of object 0 is rolled back with it. *)
+Example C20_multi_nonvacuous :
+  moutcomem 1 2 sch2 [[Some 10%Z]; [Some 30%Z]]
+    [MRead 1 0; MExt 1 0 (Some 71%Z); MRead 0 0; MWrite 0 0 (EConst (Some 5%Z)); MWrite 1 0 (EConst (Some 6%Z)); MCommit]
+  = ([[Some 10%Z]; [Some 71%Z]], false,
+     [MObs 1 0 (Some 30%Z); MObs 0 0 (Some 10%Z); MUpd 0 [(0%nat, Some 5%Z)] [(0%nat, Some 10%Z)] true;
+      MUpd 1 [(0%nat, Some 6%Z)] [(0%nat, Some 30%Z)] false; MFail 1]).
 Proof. vm_compute. reflexivity. Qed.
